@@ -44,6 +44,11 @@ def pinned_names():
         return set(json.load(f)['names'])
 
 
+def pinned_constants():
+    with open(os.path.join(HERE, 'pinned_helpers.json')) as f:
+        return set(json.load(f).get('constants', []))
+
+
 def pinned_signatures():
     with open(os.path.join(HERE, 'pinned_helpers.json')) as f:
         return json.load(f).get('signatures', {})
@@ -354,6 +359,7 @@ class Normaliser(object):
         self.skipped = []      # (helper name, caller, reason)
         self.helpers = {}
         self._fstrings_to_format()
+        self._inline_new_constants()
         self._fold_delegates()
         self._collect()
 
@@ -760,6 +766,65 @@ class Normaliser(object):
                             if not b:
                                 b.append(ast.copy_location(ast.Pass(), d))
                             self.inlined.append((d.name, fn.name, 'def-to-lambda'))
+
+    def _inline_new_constants(self):
+        """a literal that was given a name (new module-level / class-level constant bound once to a str / bytes / number) is the
+        literal again wherever that name is read in its module"""
+        pinned = pinned_constants()
+        count = 0
+        all_attr_stores = {n.attr for t in self.trees.values() for n in ast.walk(t) if isinstance(n, ast.Attribute) and isinstance(n.ctx, (ast.Store, ast.Del))}
+        for mn, t in self.trees.items():
+            stores = {}
+            for n in ast.walk(t):
+                if isinstance(n, ast.Name) and isinstance(n.ctx, (ast.Store, ast.Del)):
+                    stores[n.id] = stores.get(n.id, 0) + 1
+                elif isinstance(n, (ast.FunctionDef, ast.ClassDef)):
+                    stores[n.name] = stores.get(n.name, 0) + 1
+                elif isinstance(n, ast.arg):
+                    stores[n.arg] = stores.get(n.arg, 0) + 1
+                elif isinstance(n, ast.alias):
+                    nm = (n.asname or n.name).split('.')[0]
+                    stores[nm] = stores.get(nm, 0) + 1
+            def literal(v):
+                if isinstance(v, ast.BinOp) and isinstance(v.op, (ast.Mult, ast.Add, ast.Sub, ast.Div, ast.Pow)):
+                    return literal(v.left) and literal(v.right) and not isinstance(getattr(v.left, 'value', 0), (str, bytes))
+                return isinstance(v, ast.Constant) and isinstance(v.value, (str, bytes, int, float)) and not isinstance(v.value, bool)
+            mod_consts = {}
+            for s in list(t.body):
+                if isinstance(s, ast.Assign) and len(s.targets) == 1 and isinstance(s.targets[0], ast.Name) and literal(s.value) and \
+                        s.targets[0].id not in pinned and stores.get(s.targets[0].id) == 1 and not s.targets[0].id.startswith('__'):
+                    mod_consts[s.targets[0].id] = (s, s.value)
+            cls_consts = {}
+            for c in [s for s in t.body if isinstance(s, ast.ClassDef)]:
+                for s in list(c.body):
+                    if isinstance(s, ast.Assign) and len(s.targets) == 1 and isinstance(s.targets[0], ast.Name) and literal(s.value) and \
+                            s.targets[0].id not in pinned and s.targets[0].id not in all_attr_stores and s.targets[0].id.isupper():
+                        cls_consts[(c.name, s.targets[0].id)] = (c, s, s.value)
+            if not mod_consts and not cls_consts:
+                continue
+
+            class T(ast.NodeTransformer):
+                def visit_Name(self_, n):
+                    if isinstance(n.ctx, ast.Load) and n.id in mod_consts:
+                        return ast.copy_location(copy.deepcopy(mod_consts[n.id][1]), n)
+                    return n
+
+                def visit_Attribute(self_, n):
+                    self_.generic_visit(n)
+                    if isinstance(n.ctx, ast.Load) and isinstance(n.value, ast.Name):
+                        for (cn, an), (c, s, v) in cls_consts.items():
+                            if n.attr == an and n.value.id in ('self', 'cls', cn):
+                                return ast.copy_location(copy.deepcopy(v), n)
+                    return n
+            T().visit(t)
+            for nm, (s, v) in mod_consts.items():
+                t.body.remove(s)
+                count += 1
+            # class constants stay defined (other modules may read them); only their uses in this module became literals
+            count += len(cls_consts)
+            ast.fix_missing_locations(t)
+        if count:
+            self.inlined.append(('named literals', str(count), 'to-literal'))
 
     def _fold_delegates(self):
         """a static method that only forwards its parameters to a new module-level function of the same module
